@@ -24,6 +24,10 @@ def gen(rng, tier):
         if i < 45:
             nd = i + 1       # every row count 1..45 (all residues of the 10-way unrolled scatter)
         docs, vocab = K.gen_docs(rng, n_docs=nd)
+        if nd is None and len(docs) >= 2 and rng.random() < 0.35:
+            # repeated documents (equal strings in one batch)
+            for _ in range(rng.randint(1, 4)):
+                docs[rng.randrange(len(docs))] = docs[rng.randrange(len(docs))]
         voc = K.vocab_of(docs)
         qs = [["tf", t] for t in (voc if len(voc) <= 12 else rng.sample(voc, 12))]
         qs += [["tf", vocab + 1000 + rng.randint(0, 5)]]          # absent term
